@@ -97,8 +97,7 @@ def rule_r2(ctx):
                                 "%s in received() is not dominated by a test of %s inside the requests lock" % (what, flag), f.loc(n.ast))
 
 
-def rule_r3(ctx):
-    rid = "C11.R3"
+def rule_r3(ctx, rid="C11.R3"):
     ctx.r.rule(rid, "every dispatch is guarded: the worker-side add_task is unreachable once close_on_finish / will_close was seen; task execution is guarded by connected; I/O-side will_close stores are followed by the teardown in the same handler")
     p = ctx.p
     cg = get_callgraph(p)
